@@ -93,6 +93,10 @@ type pass struct {
 	rate      int
 	weight    int
 
+	maxFiles uint64 // quota limits of this pass's pool
+	maxBytes uint64
+	atomic   bool // actors also interleave at individual sync/atomic operations
+
 	suspect       int64 // bytes reserved by NewFile calls that failed in the base pool, release not yet confirmed
 	opsDone       int
 	failedOps     int
@@ -102,18 +106,24 @@ type pass struct {
 }
 
 func (w *world) newPass(name string, mode int) *pass {
+	return w.newPassQ(name, mode, 2, w.cfg.nslots, w.cfg.maxFiles, w.cfg.maxBytes)
+}
+
+// newPassQ builds a fresh system with its own number of actors and slots and
+// its own quota limits.
+func (w *world) newPassQ(name string, mode, nactors, nslots int, maxFiles, maxBytes uint64) *pass {
 	w.passes++
-	p := &pass{w: w, name: name, mode: mode, planAt: -1, byName: map[string]*opCtx{}}
+	p := &pass{w: w, name: name, mode: mode, planAt: -1, byName: map[string]*opCtx{}, maxFiles: maxFiles, maxBytes: maxBytes}
 	cfg := &w.cfg
 	p.dev = newFakeDevice(p, cfg.ss*cfg.nsec, cfg.eofAtEnd)
 	p.alloc = &trackingAllocator{p: p, base: pool.NewBitmapSectorAllocator(uint32(cfg.nsec)), out: map[uint32]int32{}}
 	bd := pool.NewBlockDeviceBackedFilePool(p.dev, p.alloc, cfg.ss)
-	p.qpool = pool.NewQuotaEnforcingFilePool(&faultyPool{p: p, base: bd}, cfg.maxFiles, cfg.maxBytes)
-	p.slots = make([]*fileModel, cfg.nslots)
+	p.qpool = pool.NewQuotaEnforcingFilePool(&faultyPool{p: p, base: bd}, maxFiles, maxBytes)
+	p.slots = make([]*fileModel, nslots)
 	p.seq = &opCtx{p: p, name: "ctl", fileGen: -1}
 	p.ctxs = []*opCtx{p.seq}
 	if mode == modeActors {
-		for a := 0; a < 2; a++ {
+		for a := 0; a < nactors; a++ {
 			c := &opCtx{p: p, name: fmt.Sprintf("%s-actor%d", name, a), fileGen: -1}
 			p.actors = append(p.actors, c)
 			p.ctxs = append(p.ctxs, c)
@@ -148,7 +158,7 @@ func (p *pass) owner(slot int) *opCtx {
 	if p.mode != modeActors {
 		return p.seq
 	}
-	return p.actors[slot%2]
+	return p.actors[slot%len(p.actors)]
 }
 
 // seam is called by every fake at every call from the code under test.
@@ -347,7 +357,7 @@ func (w *world) genFreshOp(p *pass) *op {
 	slot := t.Choice(cfg.nslots)
 	fm := p.slots[slot]
 	used, _, _, _ := p.quotaUsed(p.seq)
-	remaining := int64(cfg.maxBytes) - used
+	remaining := int64(p.maxBytes) - used
 	if remaining > 1<<20 {
 		remaining = 1 << 20
 	}
@@ -480,16 +490,20 @@ func (w *world) runSequential(p *pass, generate bool) {
 // owning the files of every other slot (file handles are documented as not
 // thread-safe; the pool, allocator and quota are shared).
 func (w *world) runActors(p *pass) {
+	lists := make([][]*op, len(p.actors))
+	for _, o := range w.ops {
+		lists[o.slot%len(lists)] = append(lists[o.slot%len(lists)], o)
+	}
+	w.runActorLists(p, lists)
+}
+
+// runActorLists runs one actor per operation list.
+func (w *world) runActorLists(p *pass, lists [][]*op) {
 	k := w.k
 	var acts []*simsync.Actor
-	for a := 0; a < 2; a++ {
+	for a := range p.actors {
 		c := p.actors[a]
-		var mine []*op
-		for _, o := range w.ops {
-			if o.slot%2 == a {
-				mine = append(mine, o)
-			}
-		}
+		mine := lists[a]
 		acts = append(acts, k.Spawn(c.name, func() {
 			for _, o := range mine {
 				if k.Failed() {
@@ -500,6 +514,9 @@ func (w *world) runActors(p *pass) {
 			}
 		}))
 	}
+	k.AfterStep = p.afterStep
+	k.AtomicPoints = p.atomic
+	defer func() { k.AfterStep, k.AtomicPoints = nil, false }()
 	k.Run(1 << 22)
 	if k.Failed() {
 		return
@@ -659,8 +676,7 @@ func (p *pass) sweepSectors() {
 // sweepQuota: with every file closed the whole quota must be available again
 // and not a byte or file more.
 func (p *pass) sweepQuota() {
-	cfg := &p.w.cfg
-	want := int64(cfg.maxBytes)
+	want := int64(p.maxBytes)
 	newFile := func(size int64) (f filesystem.FileReadWriter, err error) {
 		p.guarded("sweep NewFile", func() { f, err = p.qpool.NewFile(pool.ZeroHoleSource, uint64(size)) })
 		return
@@ -698,7 +714,7 @@ func (p *pass) sweepQuota() {
 		return
 	}
 	var files []filesystem.FileReadWriter
-	for i := uint64(0); i < cfg.maxFiles; i++ {
+	for i := uint64(0); i < p.maxFiles; i++ {
 		f, err := newFile(0)
 		if p.w.k.Failed() {
 			return
@@ -708,14 +724,14 @@ func (p *pass) sweepQuota() {
 			if isQuotaErr(err) {
 				rule = "C15/quota-leak"
 			}
-			p.violate(rule, fmt.Sprintf("all files were closed but only %d of %d files can be created: %v", i, cfg.maxFiles, err))
+			p.violate(rule, fmt.Sprintf("all files were closed but only %d of %d files can be created: %v", i, p.maxFiles, err))
 			return
 		}
 		files = append(files, f)
 	}
 	if f, err := newFile(0); err == nil {
 		closeFile(f)
-		p.violate("C15/quota-exceeded", fmt.Sprintf("all files were closed; %d files (the file quota) were created and one more was accepted: file quota was released twice", cfg.maxFiles))
+		p.violate("C15/quota-exceeded", fmt.Sprintf("all files were closed; %d files (the file quota) were created and one more was accepted: file quota was released twice", p.maxFiles))
 		return
 	} else if !isQuotaErr(err) {
 		p.violate("C15/unexpected-error", fmt.Sprintf("sweep: NewFile(0) failed with %q", err))
@@ -810,7 +826,16 @@ func (w *world) main() {
 		w.r.Count("interleaved-passes", 2)
 	}
 
-	// 4. Sequential pass with several random faults.
+	// 4. Quota contention: 2-4 actors on their own files of one pool with a
+	// tight quota, interleaved at every single atomic operation as well.
+	for i := 0; i < 2; i++ {
+		w.runQuotaPass(i)
+		if k.Failed() {
+			return
+		}
+	}
+
+	// 5. Sequential pass with several random faults.
 	p := w.newPass("random", modeRandom)
 	p.budget = 2 + t.Choice(7)
 	p.rate = pick(t, []int{10, 4, 30})
@@ -821,6 +846,53 @@ func (w *world) main() {
 	w.r.Count("passes", w.passes)
 
 	w.r.NonTrivial = w.genVerifiedFiles >= 1 && w.enumPasses >= 1 && w.sweeps == w.passes
+}
+
+// runQuotaPass: every actor repeatedly creates, grows, shrinks and closes its
+// own file; the byte quota suffices for one actor's need but not for two, the
+// file quota is 1-3. Fault-free; the kernel also parks actors before every
+// sync/atomic operation of the code under test (Kernel.AtomicPoints).
+func (w *world) runQuotaPass(idx int) {
+	t, k := w.t, w.k
+	na := 2 + t.Choice(3)
+	need := int64(4 + t.Choice(60))
+	quota := need + 1 + int64(t.Choice(int(need)-1)) // need < quota < 2*need
+	maxFiles := 1 + t.Choice(3)
+	p := w.newPassQ(fmt.Sprintf("quota%d", idx), modeActors, na, na, uint64(maxFiles), uint64(quota))
+	p.atomic = true
+	w.r.Logf("pass %s: %d actors, quota %d files / %d bytes, one actor needs %d bytes", p.name, na, maxFiles, quota, need)
+	size := func() int64 {
+		return pick(t, []int64{need, quota - need, quota - need + 1, need - 1, quota, 1, 0, need + 1})
+	}
+	lists := make([][]*op, na)
+	for a := 0; a < na; a++ {
+		n := 6 + t.Choice(12)
+		for len(lists[a]) < n {
+			o := &op{kind: opNew, slot: a, size: size()}
+			o.hs.kind = t.Choice(2)
+			lists[a] = append(lists[a], o)
+			for j := t.Choice(3); j > 0; j-- {
+				if t.Bool(1, 3) {
+					lists[a] = append(lists[a], &op{kind: opWrite, slot: a, off: size(), n: 1 + t.Choice(3)})
+				} else {
+					lists[a] = append(lists[a], &op{kind: opTrunc, slot: a, size: size()})
+				}
+			}
+			lists[a] = append(lists[a], &op{kind: opClose, slot: a})
+		}
+		for i, o := range lists[a] {
+			w.r.Logf("pass %s actor%d op %d: %s", p.name, a, i, o)
+		}
+	}
+	k.FaultsOn = false
+	parks := k.AtomicParks
+	w.runActorLists(p, lists)
+	k.FaultsOn = true
+	w.r.Count("atomic-parks", k.AtomicParks-parks)
+	if !k.Failed() {
+		k.Probe("quota-contention-pass-completed")
+		w.r.Count("quota-contention-passes", 1)
+	}
 }
 
 // World is the entry point registered for property C15.
